@@ -75,6 +75,24 @@ def _digest(arr: np.ndarray) -> str:
     return h.hexdigest()[:16]
 
 
+NONDETERMINISTIC = {"RandomNormal", "RandomNormalLike", "RandomUniform", "RandomUniformLike", "Multinomial",
+                    "Bernoulli"}
+
+
+def has_unseeded_random(model: onnx.ModelProto) -> bool:
+    def walk(g) -> bool:
+        for n in g.node:
+            if n.op_type in NONDETERMINISTIC and not any(a.name == "seed" for a in n.attribute):
+                return True
+            for a in n.attribute:
+                if a.type == onnx.AttributeProto.GRAPH and walk(a.g):
+                    return True
+                if a.type == onnx.AttributeProto.GRAPHS and any(walk(x) for x in a.graphs):
+                    return True
+        return False
+    return walk(model.graph) or any(walk(f) for f in model.functions)
+
+
 class Termifier:
     """Shared between the before and the after graph of one pair (ids must agree)."""
 
@@ -193,6 +211,10 @@ class Termifier:
                         t = const_term(val, anns.get(name, {}))
                         memo[name] = (t, count[0] - start)
                         return t
+                if n.op_type in NONDETERMINISTIC and not any(a.name == "seed" for a in n.attribute):
+                    # the term language reads every operator as a function of its operands: two
+                    # unseeded random nodes are NOT the same value, so such pairs are never certified
+                    raise TooBig()
                 ins = list(n.input)
                 attrs = []
                 extra: dict[str, Any] = {}
